@@ -48,7 +48,7 @@ class Group2d:
 
     def bound(self, tier):
         return ('2-D arrays with 1..%d pairwise different rows (corpus signals, n=800), shared option set or per-row list, '
-                'n_jobs in {1, 2, rows+2}, progress None, return_samples True/False, injected delays so that the first rows '
+                'n_jobs in {1, 2, rows+2}, progress None / tqdm, return_samples True/False, injected delays so that the first rows '
                 'finish last; BycycleGroup.fit on the same inputs' % (4 if tier == 'quick' else 6))
 
     def gen(self, tier, seed):
@@ -58,7 +58,9 @@ class Group2d:
                 for n_jobs in sorted({1, 2, rows + 2}):
                     for rs in ((True,) if tier == 'quick' and rows > 2 else (True, False)):
                         for delay in ((False, True) if n_jobs > 1 else (False,)):
-                            yield dict(rows=rows, per_row=per_row, n_jobs=n_jobs, rs=rs, delay=delay, seed=seed)
+                            for progress in ((None, 'tqdm') if (delay or rows == 2) else (None,)):
+                                yield dict(rows=rows, per_row=per_row, n_jobs=n_jobs, rs=rs, delay=delay, seed=seed,
+                                           progress=progress)
 
     def nontrivial(self, c):
         return c['rows'] >= 2
@@ -78,8 +80,11 @@ class Group2d:
         orig = gf.compute_features
         gf.compute_features = _delayed_compute_features
         try:
-            out = gf.compute_features_2d(sigs, FS, FR, compute_features_kwargs=kws, axis=0, return_samples=c['rs'],
-                                         n_jobs=c['n_jobs'])
+            import io
+            import contextlib
+            with contextlib.redirect_stdout(io.StringIO()):
+                out = gf.compute_features_2d(sigs, FS, FR, compute_features_kwargs=kws, axis=0, return_samples=c['rs'],
+                                             n_jobs=c['n_jobs'], progress=c.get('progress'))
         finally:
             gf.compute_features = orig
             _DELAYS = {}
@@ -184,7 +189,7 @@ class GroupEpoched:
 
     def gen(self, tier, seed):
         for rows in range(1, (4 if tier == 'quick' else 6) + 1):
-            for L in (400, 800):
+            for L in (30, 400, 800):
                 for kwk in ('shared', 'list'):
                     for centre in ('peak', 'trough'):
                         yield dict(rows=rows, L=L, kw=kwk, centre=centre, seed=seed)
@@ -197,6 +202,8 @@ class GroupEpoched:
         from bycycle.features import compute_features
         from bycycle.utils import epoch_df
         from bycycle.burst import detect_bursts_cycles
+        nrows = c['rows'] if c['L'] > 100 else 20 + c['rows']          # short epochs: some hold no cycle at all
+        c = dict(c, rows=nrows)
         flat = make_signal(FAMILIES[c['seed'] % len(FAMILIES)], c['seed'] + c['rows'], n=c['rows'] * c['L'])
         sigs = flat.reshape(c['rows'], c['L'])
         base = dict(center_extrema=c['centre'], threshold_kwargs=dict(TH_PRESETS['loose']),
@@ -282,10 +289,12 @@ class Objects:
         cur_sig = None
         ops = []
         for step in range(c['steps']):
-            op = rng.choice(['fit', 'fit', 'edges', 'load', 'edit', 'attr']) if cur_sig is not None else 'fit'
+            op = rng.choice(['fit', 'refit', 'refit', 'edges', 'load', 'edit', 'attr']) if cur_sig is not None else 'fit'
             ops.append(op)
-            if op == 'fit':
-                cur_sig = make_signal(rng.choice(FAMILIES), rng.randint(0, 50), n=1000)
+            if op in ('fit', 'refit'):
+                if op == 'fit':
+                    cur_sig = make_signal(rng.choice(FAMILIES), rng.randint(0, 50), n=1000)
+                # 'refit': the very same array object again (after edits / loads / edge recomputations)
                 bm.fit(cur_sig, FS, FR)
                 settings = dict(center_extrema=bm.center_extrema, burst_method=bm.burst_method,
                                 burst_kwargs=copy.deepcopy(bm.burst_kwargs), threshold_kwargs=copy.deepcopy(bm.thresholds),
